@@ -269,7 +269,15 @@ func (this *badgerWAL) CreateSnapshot(idx uint64, confState *raftpb.ConfState, d
 }
 
 func (this *badgerWAL) DeleteGroup() error {
-	return this.reset(nil)
+	if err := this.reset(nil); err != nil {
+		return err
+	}
+	return this.db.Update(func(txn *badger.Txn) error {
+		if err := txn.Delete(this.hardStateKey()); err != nil {
+			return err
+		}
+		return txn.Delete(this.snapshotKey())
+	})
 }
 
 func (this *badgerWAL) entryPrefix() []byte {
